@@ -234,7 +234,8 @@ class GaussianCovCost(BaseCost):
         y: None
             Ignored. Included for API consistency by convention.
         """
-        X = as_2d_array(X)
+        # float64 also for pandas nullable / object columns (np.cov and slogdet need a numeric dtype)
+        X = as_2d_array(X, dtype=np.float64)
         self._param = self._check_param(self.param, X)
 
         if self.param is not None:
